@@ -52,7 +52,9 @@ func (h *Heap[T]) Pop() (T, bool) {
 	h.data[0] = h.data[n]
 	if h.assignIndex != nil {
 		h.assignIndex(x, -1)
-		h.assignIndex(h.data[0], 0)
+		if n > 0 { // with a single element data[0] is x itself, which is no longer in the heap
+			h.assignIndex(h.data[0], 0)
+		}
 	}
 	h.data = h.data[:n]
 	if n > 0 {
